@@ -5,7 +5,7 @@
 #  change, 4. and PASSES without it.  Writes /verif/seeded/<ID>-<mN>/verify.log and updates meta.json.
 set -u
 ID=$1; M=$2
-WT=/tmp/mut/$ID
+WT=${3:-/tmp/mut/$ID}
 SD=/verif/seeded/$ID-$M
 LOG=$SD/verify.log
 export XDG_DATA_HOME=$(mktemp -d)
